@@ -452,6 +452,57 @@ fn gen(r: &mut Rng, tier: &Tier, out: &mut Vec<String>) {
         out.push(format!("A P d:80 E F {}", hex(&ip)));
         out.push(format!("D N n:4:{}/16 E F {}", hex(&[src[0], src[1], 0, 0]), hex(&ip)));
     }}
+    // ---- F stream 2b: frames decodable under two framings, with filters that separate the two readings ----
+    // (a) well-formed Ethernet/IPv4|IPv6 TCP frames whose 14-byte Ethernet header also reads as the start of a raw IPv4 packet
+    //     (byte 0 = 0x40..0x4f incl. every IHL nibble, byte 9 = 6) or of a raw IPv6 packet (byte 0 = 0x6_, byte 6 = 6);
+    // (b) raw IPv4 / IPv6 packets whose bytes 12..13 read 08 00 / 86 dd and whose bytes from offset 14 on also pass the
+    //     filter's TCP test (byte 23 = 6 resp. byte 20 = 6).
+    // Both decoders must take the Ethernet reading (probe order Ethernet -> raw IP -> loopback).
+    let mut ambiguous: Vec<Vec<u8>> = Vec::new();
+    for b0 in 0x40u8..=0x4f { for v6 in [false, true] { for kind in [0u8, 3] {
+        let mut c = Conn::gen(r); c.v6 = v6;
+        let ip = c.ip(true, &c.seg(true, kind), if b0 & 1 == 0 { 0 } else { 2 }, None);
+        let mut f = wrap(Framing::EthAlias4(b0), v6, &ip);
+        while f.len() < 68 { f.push(0x5a); }                    // room for the raw reading's ports at 4*IHL (trailer bytes)
+        ambiguous.push(f);
+    }}}
+    for b0 in [0x60u8, 0x61, 0x66, 0x6f] { for v6 in [false, true] { for kind in [0u8, 3, 5] {
+        let mut c = Conn::gen(r); c.v6 = v6;
+        ambiguous.push(wrap(Framing::EthAlias6(b0), v6, &c.ip(true, &c.seg(true, kind), 0, None)));
+    }}}
+    for _ in 0..tier.scale(150, 3000) {
+        let mut c = Conn::gen(r); let v6 = c.v6;
+        let dir = r.chance(1, 2); let kind = r.below(6) as u8;
+        let fr = if r.chance(2, 3) { Framing::EthAlias4(0x40 + r.below(16) as u8) } else { Framing::EthAlias6(0x60 + r.below(16) as u8) };
+        if r.chance(1, 4) { c.cp = 0x4006; }
+        let mut f = wrap(fr, v6, &c.ip(dir, &c.seg(dir, kind), if r.chance(1, 2) { 0 } else { r.below(6) as usize }, None));
+        if r.chance(1, 2) { while f.len() < 68 { f.push(r.next() as u8); } }
+        ambiguous.push(f);
+    }
+    // (b) raw packets that also read as Ethernet
+    for src in [[8u8, 0, 0x45, 0], [8, 0, 0x46, 7], [134, 221, 0x60, 0], [134, 221, 0x45, 1]] { for dport in [6u16, 262, 80] { for sport in [0x0601u16, 0x06ff, 12345] { for extra in [0usize, 24, 40] {
+        let seg = tcp_segment(sport, dport, 9, 0, SYN, 2048, &[], &vec![6u8; extra]);
+        ambiguous.push(V4::new(src, [10, 0, 0, 2]).build(&seg));
+    }}}}
+    for (b4, b5, six_at) in [(8u8, 0u8, 15usize), (0x86, 0xdd, 12)] { for extra in [0usize, 20] {
+        let mut a = [0u8; 16]; a[0] = 0x20; a[1] = 0x01; a[4] = b4; a[5] = b5; a[six_at] = 6; a[6] = 0x45;
+        let mut b = [0u8; 16]; b[0] = 0x20; b[1] = 0x01; b[15] = 2;
+        ambiguous.push(V6::new(a, b).build(&tcp_segment(12345, 443, 3, 0, SYN, 1024, &[], &vec![1u8; extra])));
+    }}
+    for f in &ambiguous {
+        let eps = readings(f);
+        let mut cfgs: Vec<String> = Vec::new();
+        for e in &eps {                                          // one-constant filters on each reading's own values
+            cfgs.push(format!("A P d:{} E", e.3));
+            cfgs.push(format!("D P s:{} E", e.2));
+            cfgs.push(format!("A I a:{} so E", show_ip(&e.0)));
+            cfgs.push(format!("D N n:{}/{} do E", show_ip(&e.1), if e.1.is_ipv6() { 64 } else { 24 }));
+        }
+        if cfgs.is_empty() { cfgs.push("A P d:443 E".into()); }
+        cfgs.push(cfg_near(r, &eps));
+        let keep = tier.scale(4, 9);
+        for k in 0..cfgs.len().min(keep) { let i = if cfgs.len() <= keep { k } else { (k * 3 + f.len()) % cfgs.len() }; out.push(format!("{} F {}", cfgs[i], hex(f))); }
+    }
     // ---- F stream 3: malformed: every truncation and single-bit flips of a few valid frames ----
     let c = Conn::gen(r);
     for fr in [Framing::Eth, Framing::Raw, Framing::Null([0x1e, 0, 0, 0]), Framing::Null([2, 0, 0, 0])] {
